@@ -203,6 +203,10 @@ pub fn run(ctx: &Ctx) -> i32 {
       if (ctx.quick() && [17u8, 20, 29].contains(&d)) || (!ctx.quick() && d >= 14) {
         cells.extend(halfword_sweep_cells(d));
       }
+      // cells whose coordinates are integer literals of the current sources
+      if [18u8, 22, 29].contains(&d) {
+        cells.extend(literal_cells(&source_literals().0, d, if ctx.quick() { 150 } else { 400 }));
+      }
       cells.sort();
       cells.dedup();
       for &h in &cells {
